@@ -2,7 +2,7 @@
 # Runs every claimed check once (quick tier by default) and prints a summary line per property.
 tier=${1:-quick}
 cd /verif
-for p in C01 C02 C03 C04 C05 C06 C07 C08 C11 C12 C13 C14 C15 C16 C17 C18 C19 C20; do
+for p in C01 C02 C03 C04 C05 C06 C07 C08 C09 C10 C11 C12 C13 C14 C15 C16 C17 C18 C19 C20; do
   start=$(date +%s)
   ./check $p --tier $tier > .build/check_$p.log 2>&1
   rc=$?
